@@ -1057,6 +1057,9 @@ class PlusMinusPlugin(Plugin):
                 next = banned
             else:
                 # Anything else: put it in the appropriate group
+                if isinstance(node, syntax.GroupNode):
+                    # + and - only work in the flat top-level query
+                    node = self._remove_markers(node)
                 next.append(node)
                 # Reset to putting things in the optional group by default
                 next = optional
@@ -1067,6 +1070,16 @@ class PlusMinusPlugin(Plugin):
         if banned:
             group = syntax.AndNotGroup([group, banned])
         return group
+
+    def _remove_markers(self, group):
+        newgroup = group.empty_copy()
+        for node in group:
+            if isinstance(node, (self.Plus, self.Minus)):
+                continue
+            if isinstance(node, syntax.GroupNode):
+                node = self._remove_markers(node)
+            newgroup.append(node)
+        return newgroup
 
 
 class GtLtPlugin(TaggingPlugin):
